@@ -7,15 +7,49 @@ ASSUMPTIONS = [
     "(the storage call parks after the inner write, the node's tasks are abandoned, a new KeyspaceGroup runs load_states_from_storage on the same storage)",
     "start-up under storage read errors: after every request the node is also started once with a failing keyspace-list read and once with a failing "
     "metadata scan; the start must be refused, or what it built must be what storage holds (then the clean start follows)",
-    "storage backend for the crash replay is MemStore (the persistent backends' reopen fidelity is C17's subject)",
+    "storage backend for the crash replay is MemStore; on the persistent backends (SQLite file, LMDB) a real group handles a request stream (two keyspaces, ids "
+    "from 0 to 2^64-1, 5 000 consecutive ids in one bulk call), the process ends between requests, and a fresh process rebuilds the sets from the files "
+    "(Trace_Restart.tla); the backends' call-by-call fidelity is C17's subject",
     "'visible' = the key holds the acknowledged operation or a newer one; an acknowledged delete (and what it superseded) may have been purged",
     "convergence of the restarted node with its peers is covered by the Cluster model (C01), not here",
 ]
 
 
+def persistent_backends(ctx):
+    """A real group over SQLite (file) / LMDB handles a request stream and reports its sets; the process ends; a fresh process
+    opens the files, loads the states and reports what it rebuilt (Trace_Restart.tla: the same, and every live document readable)."""
+    import json
+    import shutil
+    binary = vlib.build_harness(ctx, "h-ec")
+    trace = ctx.path("restart.ndjson")
+    runs = 3 if ctx.tier == "quick" else 12
+    with open(trace, "w") as f:
+        for i in range(runs):
+            d = "/dev/shm/verif-restart-%d-%d" % (ctx.seed, i)
+            for phase in ("write", "load"):
+                out = vlib.run_harness(ctx, [binary, "restart-backends", "--phase", phase, "--dir", d, "--seed", str(ctx.seed * 100 + i)], timeout=1200)
+                f.write("".join(l + "\n" for l in out.splitlines() if l.startswith("{")))
+            shutil.rmtree(d, ignore_errors=True)
+    tv = vlib.validate_trace(ctx, "Trace_Restart", {}, trace, "trace_restart", invariants=["Report"])
+    if tv["rejected"] is not None:
+        raise vlib.ToolError("trace validation stopped early: %s" % tv["rejected"])
+    n = sum(1 for l in open(trace) if '"after"' in l)
+    if n < 4:
+        raise vlib.ToolError("vacuous: no restart on a persistent backend was recorded")
+    ctx.log("persistent backends: %d restarts (SQLite file, LMDB; fresh process each) of keyspaces with ids up to 2^64-1 and 5 000 consecutive ones: "
+            "%d rebuilt sets differ from what the stopped node held" % (n, len(tv["fails"])))
+    for e in tv["fails"][:3]:
+        ctx.violations.append({"engine": "h-ec restart-backends + Trace_Restart", "event": e,
+                               "why": ["the set a restarted node rebuilt from this backend is not what the stopped node held (live ids / tombstones / "
+                                       "stamps), or the start failed, or a live document is unreadable"]})
+    return {"restarts": n, "rebuilt_sets_that_differ": len(tv["fails"])}
+
+
 def run(ctx):
     results = keyspace_model.run_all(ctx)
     cov = keyspace_model.judge(ctx, results, "C07")
+    cov["persistent_backends"] = persistent_backends(ctx)
+    cov["traces_validated_against_impl"] += cov["persistent_backends"]["restarts"]
     return vlib.finish(ctx, "model_checking", cov, ASSUMPTIONS)
 
 
